@@ -237,8 +237,8 @@ cdef class CJokerHelper:
             if name == 'K' and self.fixed_K_prior == 0:
                 # TODO: here's the major hack
                 self.sigma_K0 = dist._sigma_K0.to_value(to_unit)
-                self.P0 = dist._P0.to_value(getattr(prior.pars['P'],
-                                                    xu.UNIT_ATTR_NAME))
+                # the kernel receives periods in internal units (days)
+                self.P0 = dist._P0.to_value(self.internal_units['P'])
                 self.max_K = dist._max_K.to_value(to_unit)
                 self.mu[i] = mu
 
